@@ -69,6 +69,8 @@ type checker struct {
 	ps      *probeSet
 	reads   int
 	nontriv int
+	// collapse: wrong ANSWERS (not errors) of this checker are one finding with one root cause
+	collapse string
 }
 
 func (c *checker) fail(kind, view string, block, head uint64, query string, addr, key *felt.Felt, exp, got string) {
@@ -81,6 +83,9 @@ func (c *checker) fail(kind, view string, block, head uint64, query string, addr
 		w.Key = key.String()
 	}
 	class := fmt.Sprintf("%s:%s:%s:%s", c.backend, view, query, kind)
+	if c.collapse != "" && kind != "unexpected-error" {
+		class = c.collapse
+	}
 	c.r.Violation(class, c.idx, fmt.Sprintf("%s %s-view block %d (head %d) %s addr=%s key=%s: expected %s, got %s",
 		c.backend, view, block, head, query, w.Addr, w.Key, exp, got), w)
 }
@@ -410,6 +415,7 @@ func TestC03(t *testing.T) {
 	r := lib.Start("C03", "exploration")
 	n := r.N(60, 1500)
 	r.Cases(n, 0, func(idx int) { runHistory(r, idx) })
+	r.Cases(r.N(120, 3000), 0, func(idx int) { runOvertaken(r, idx) })
 	r.Assume("the reference model interprets a state diff as the Starknet specification does (deploy, replace, nonce, storage with zero = unset, declare, CASM migration)")
 	r.Assume("storage reads of a contract that does not exist may answer zero or not-found (never a value); system contracts 0x1/0x2 may report class hash / nonce as zero or not-found")
 	r.Finish("case = random history (grow / revert / regrow on a different fork, 2-6 segments, chains up to 14 (quick) or 54 (thorough) blocks, all block formats) stored on a legacy and a new-state node; "+
